@@ -9,6 +9,7 @@ import (
 	"os"
 	"testing"
 	"runtime"
+	"sync"
 	"testing/synctest"
 	"time"
 
@@ -16,6 +17,7 @@ import (
 	"github.com/filecoin-project/go-data-transfer/v2/channelmonitor"
 	"github.com/filecoin-project/go-data-transfer/v2/impl"
 	cidlink "github.com/ipld/go-ipld-prime/linking/cid"
+	peer "github.com/libp2p/go-libp2p/core/peer"
 	"verifharness/kit"
 )
 
@@ -131,6 +133,29 @@ func runMonMgr(c mmCase) mmObs {
 	ctx := context.Background()
 	other := kit.Peer("B")
 	pull := s.Dir == "pull"
+	if s.Kind == "accept" && s.At == 99 {
+		// the responder answers at once: its accept is handled before the call that carries the request out has returned
+		var once sync.Once
+		if pull {
+			n.Tr.OnCall = func(c kit.TCall, m datatransfer.Message) {
+				if c.Call == "open" {
+					once.Do(func() {
+						acc, _ := kit.BuildMsg(kit.Msg{Kind: "New", Tid: c.Msg.Tid, Accepted: true})
+						_ = n.Tr.Events.OnResponseReceived(datatransfer.ChannelID{Initiator: kit.Peer("A"), Responder: other, ID: datatransfer.TransferID(c.Msg.Tid)}, acc.(datatransfer.Response))
+					})
+				}
+			}
+		} else {
+			n.Net.OnSend = func(to peer.ID, m datatransfer.Message) {
+				if m.IsRequest() && m.(datatransfer.Request).IsNew() {
+					once.Do(func() {
+						acc, _ := kit.BuildMsg(kit.Msg{Kind: "New", Tid: uint64(m.TransferID()), Accepted: true})
+						n.Net.Recv.ReceiveResponse(ctx, other, acc.(datatransfer.Response))
+					})
+				}
+			}
+		}
+	}
 	if pull {
 		chid, err = n.M.OpenPullDataChannel(ctx, other, kit.Voucher("v0"), kit.Cid("base"), kit.Selector("s"))
 	} else {
@@ -223,7 +248,7 @@ func runMonMgr(c mmCase) mmObs {
 			}
 		}
 	case "accept":
-		if s.At > 0 {
+		if s.At > 0 && s.At != 99 {
 			time.Sleep(time.Duration(s.At) * time.Second)
 			synctest.Wait()
 			if err := deliverResp(accept); err != nil {
